@@ -378,3 +378,19 @@ M('jsonl-reverse-skips-last-when-aligned', 'C19', 'jsonutils.py',
   "            if rs == 1.0:\n                self._cur_pos = size", "            if rs == 1.0:\n                self._cur_pos = size\n                if size % 4096 == 0 and size:\n                    fo.seek(size - 1)")
 M('jsonl-blank-line-stops', 'C19', 'jsonutils.py',
   "            if not line:\n                continue\n            try:\n                obj = json.loads(line)", "            if not line:\n                if self._reverse:\n                    continue\n                if len(line) == 0 and getattr(self, '_n', 0) > 40:\n                    raise StopIteration\n                continue\n            self._n = getattr(self, '_n', 0) + 1\n            try:\n                obj = json.loads(line)")
+
+# ---------------------------------------------------------------- C20
+M('tc-compaction-ge', 'C20', 'cacheutils.py',
+  "if sum(v) > self._cur_bucket}", "if sum(v) >= self._cur_bucket}")
+M('tc-compaction-drops-heavy', 'C20', 'cacheutils.py',
+  "if sum(v) > self._cur_bucket}", "if sum(v) > self._cur_bucket + (1 if self._cur_bucket == 3 else 0)}")
+M('tc-reentry-bucket', 'C20', 'cacheutils.py',
+  "            self._count_map[key] = [1, self._cur_bucket - 1]", "            self._count_map[key] = [1, self._cur_bucket]")
+M('tc-count-includes-delta', 'C20', 'cacheutils.py',
+  "    def __getitem__(self, key):\n        return self._count_map[key][0]", "    def __getitem__(self, key):\n        return sum(self._count_map[key])")
+M('tc-common-count-values', 'C20', 'cacheutils.py',
+  "        return sum([count for count, _ in self._count_map.values()])", "        return sum([count + (d > 4) for count, d in self._count_map.values()])")
+M('tc-most-common-ascending-ties', 'C20', 'cacheutils.py',
+  "        ret = sorted(self.iteritems(), key=lambda x: x[1], reverse=True)", "        ret = sorted(self.iteritems(), key=lambda x: x[1], reverse=len(self) < 6)")
+M('tc-total-in-update', 'C20', 'cacheutils.py',
+  "                    for i in range(count):\n                        self.add(key)", "                    for i in range(count if count < 4 else count - 1):\n                        self.add(key)")
